@@ -45,6 +45,7 @@ type c14Case struct {
 	Undeclared bool  `json:"undeclared,omitempty"` // the SAMLEncoding parameter is omitted (payload is DEFLATE all the same)
 	Container string `json:"container,omitempty"` // "" raw DEFLATE (what the binding specifies) | zlib (RFC 1950 wrapper) | gzip (RFC 1952 wrapper)
 	Repeat    int    `json:"repeat,omitempty"`    // the request is sent this many times to the same process first (history); the LAST one is measured
+	Fault     string `json:"fault,omitempty"`     // "op/kind": this storage operation fails once while the measured request is served
 }
 
 type c14Result struct {
@@ -157,6 +158,10 @@ func c14Worker(c c14Case) c14Result {
 		mk() // history: earlier identical requests on the same process
 	}
 	vhook.InflateMaxSingle.Store(0)
+	if c.Fault != "" {
+		of := strings.SplitN(c.Fault, "/", 2)
+		w.Store.FaultNext(of[0], 1, of[1])
+	}
 	runtime.GC()
 	runtime.ReadMemStats(&m0)
 	rep := mk()
@@ -194,7 +199,7 @@ func runC14(ctx Ctx) int {
 		}
 	}
 	run := ev.NewRun("C14")
-	run.Rule = "grid: inflated size {1,8,32,64 MiB quick; +256 MiB, 1 GiB thorough} x padding placement {comment, text, attribute value, after the root element} x surrounding request {valid, invalid} x entry {SSO query, SSO form, logout form, logout query} x SAMLEncoding parameter {declared, omitted}; plus the same data in a zlib (RFC 1950) / gzip container (32, 64 MiB), plus histories of 16 (thorough 40) identical oversized requests on one process with the last one measured; each case = one real ServeHTTP in a fresh worker process; oracle: bytes delivered by the inflater (counted by the overlay's pass-through reader) <= 20 MiB, TotalAlloc delta <= 160 MiB, live heap retained after the request <= 48 MiB, and any payload larger than the bound is not accepted"
+	run.Rule = "grid: inflated size {1,8,32,64 MiB quick; +256 MiB, 1 GiB thorough} x padding placement {comment, text, attribute value, after the root element} x surrounding request {valid, invalid} x entry {SSO query, SSO form, logout form, logout query} x SAMLEncoding parameter {declared, omitted}; plus the same data in a zlib (RFC 1950) / gzip container (32, 64 MiB), plus histories of 16 (thorough 40) identical oversized requests on one process with the last one measured, plus one storage operation failing (signing-key lookup error / nil record, service-provider lookup, persist) while the largest payload is served, fresh and after an earlier request; each case = one real ServeHTTP in a fresh worker process; oracle: bytes delivered by the inflater (counted by the overlay's pass-through reader) <= 20 MiB, TotalAlloc delta <= 160 MiB, live heap retained after the request <= 48 MiB, and any payload larger than the bound is not accepted"
 	run.Assume = []string{"the inflater is compress/flate (the byte counter sits on flate.NewReader); if a change replaces it the allocation clause still decides", "the counting reader aborts an execution at 128 MiB so a violating tree is reported instead of exhausting memory"}
 	judge := func(c c14Case, r c14Result) []string {
 		var bad []string
@@ -285,6 +290,21 @@ func runC14(ctx Ctx) int {
 			}
 		}
 	}
+	// storage failures while the oversized request is served (error paths must stay bounded too): every storage operation the
+	// SSO / logout handlers call before or after decoding x {error, nil key record} x placements x entries, fresh and after
+	// one earlier request
+	for _, f := range []string{"GetResponseSigningKey/" + world.FaultError, "GetResponseSigningKey/" + world.FaultNilRecord, "GetEntityByID/" + world.FaultError, "CreateAuthRequest/" + world.FaultError} {
+		for _, pl := range []string{"comment", "text", "attr", "after-root"} {
+			for _, e := range []string{"sso-query", "sso-form", "logout-form", "logout-query"} {
+				if strings.HasPrefix(e, "logout") && !strings.HasPrefix(f, "GetEntityByID") {
+					continue
+				}
+				for _, rp := range []int{0, 2} {
+					cases = append(cases, c14Case{SizeMiB: sizes[len(sizes)-1], Placement: pl, Valid: true, Entry: e, Fault: f, Repeat: rp})
+				}
+			}
+		}
+	}
 	deadline := devx.Deadline(map[string]time.Duration{"quick": 6 * time.Minute, "thorough": 40 * time.Minute}[run.Tier])
 	// memory-heavy: at most 4 workers at a time
 	os.Setenv("VERIF_WORKERS", "4")
@@ -321,6 +341,9 @@ func runC14(ctx Ctx) int {
 			}
 			if c.Repeat > 1 {
 				labels = append(labels, "after-a-history-of-identical-requests")
+			}
+			if c.Fault != "" {
+				labels = append(labels, "storage-failure="+c.Fault)
 			}
 			if int64(c.SizeMiB)<<20 > c14DeliveredBound {
 				labels = append(labels, "inflated>bound")
